@@ -118,6 +118,20 @@ def check_vectorised(case):
                 require(_same(v, tf[i]), "vec:thr-elementwise",
                         lambda: f"threshold_at_{m}({r!r},{meth}): array {tf[i]!r} scalar {v!r}")
     require(np.array_equal(tg, tg0), "vec:mutated-target", "")
+    # general threshold search: one entry per target, each equal to the call on that target alone
+    allv = sorted(set(float(x) for x in list(s["pos"]) + list(s["neg"])))
+    if len(allv) >= 2 and len(Y) == 1 and Y[0] > 0:
+        for mname in ("fnr", "fpr", "topr"):
+            for pts in (None, 5):
+                res = o.threshold_at_metric(tg, mname, pts)
+                require(isinstance(res, list) and len(res) == Y[0], "vec:tam-entries",
+                        f"threshold_at_metric({tg.tolist()}, {mname!r}, {pts}): {type(res).__name__}")
+                for i, r in enumerate(case["tg"]["flat"]):
+                    one = o.threshold_at_metric(float(r), mname, pts)
+                    require(np.array_equal(np.ravel(res[i]), np.ravel(one)), "vec:tam-elementwise",
+                            lambda: f"threshold_at_metric({tg.tolist()}, {mname!r}, {pts})[{i}] = "
+                                    f"{np.ravel(res[i]).tolist()} but the call on {r!r} alone gives "
+                                    f"{np.ravel(one).tolist()}")
     require(np.array_equal(o.pos, np.sort(pos)) and np.array_equal(o.neg, np.sort(neg)),
             "vec:mutated-object", "")
     labels = [f"rank:{len(X)}"] + (["size0-axis"] if 0 in X or 0 in Y else [])
